@@ -52,9 +52,13 @@ func c13MkSet(i int) c13Set {
 	return c13Set{fmt.Sprintf("S%d", i), n4, n6}
 }
 
-// generation 1153 is the generation of testdata/ClientConf
-func (s c13Set) toml() string {
-	return fmt.Sprintf("\n[Networks]\n    [Networks.1153]\n        Generation = 1153\n        [[Networks.1153.WeightedSubnets]]\n            Weight = 1\n            RandomizeDstPort = true\n            Subnets = [\"%s\", \"%s\"]\n", s.v4, s.v6)
+// generation 1153 is the generation of testdata/ClientConf; a set is published for every generation rolled out so far
+func (s c13Set) toml(gens []uint32) string {
+	out := "\n[Networks]\n"
+	for _, g := range gens {
+		out += fmt.Sprintf("    [Networks.%d]\n        Generation = %d\n        [[Networks.%d.WeightedSubnets]]\n            Weight = 1\n            RandomizeDstPort = true\n            Subnets = [\"%s\", \"%s\"]\n", g, g, g, s.v4, s.v6)
+	}
+	return out
 }
 
 type c13Harness struct {
@@ -63,7 +67,39 @@ type c13Harness struct {
 	apiPort int
 	mu      sync.Mutex
 	sets    []c13Set // every set published so far
+	gens    []uint32 // generations rolled out so far (the subnet file keeps the older ones, as in production)
+	ccPath  string   // the ClientConf file the registrar reads at every reload
+	ccBase  *pb.ClientConf
 	counter atomic.Uint32
+}
+
+// content is what the subnet file holds for set s at this moment
+func (h *c13Harness) content(s c13Set) string {
+	h.mu.Lock()
+	defer h.mu.Unlock()
+	return s.toml(h.gens)
+}
+
+// rollOut writes a ClientConf of the next generation (atomically, as an operator's tooling would) and adds the
+// generation to what every subnet file published from now on contains
+func (h *c13Harness) rollOut() (uint32, error) {
+	h.mu.Lock()
+	defer h.mu.Unlock()
+	g := h.gens[len(h.gens)-1] + 1
+	cc := proto.Clone(h.ccBase).(*pb.ClientConf)
+	cc.Generation = proto.Uint32(g)
+	b, err := proto.Marshal(cc)
+	if err != nil {
+		return 0, err
+	}
+	if err := os.WriteFile(h.ccPath+".tmp", b, 0o600); err != nil {
+		return 0, err
+	}
+	if err := os.Rename(h.ccPath+".tmp", h.ccPath); err != nil {
+		return 0, err
+	}
+	h.gens = append(h.gens, g)
+	return g, nil
 }
 
 func (h *c13Harness) fifo(k int) string {
@@ -120,13 +156,15 @@ func (h *c13Harness) latest() c13Set {
 
 // register sends one dual-stack bidirectional registration; it returns the name of the set the answer lies in,
 // "mixed:<v4 set>/<v6 set>" when the two addresses come from different sets, or an error.
-func (h *c13Harness) register() (string, error) {
+func (h *c13Harness) register() (string, error) { return h.registerGen(1153) }
+
+func (h *c13Harness) registerGen(gen uint32) (string, error) {
 	tr := pb.TransportType_Min
 	secret := make([]byte, 32)
 	binary.BigEndian.PutUint32(secret, h.counter.Add(1))
 	secret[31] = 0x13
 	body, err := proto.Marshal(&pb.C2SWrapper{SharedSecret: secret, RegistrationPayload: &pb.ClientToStation{
-		Transport: &tr, DecoyListGeneration: proto.Uint32(1153), CovertAddress: proto.String("192.0.2.1:443"),
+		Transport: &tr, DecoyListGeneration: proto.Uint32(gen), CovertAddress: proto.String("192.0.2.1:443"),
 		V4Support: proto.Bool(true), V6Support: proto.Bool(true), ClientLibVersion: proto.Uint32(4)}})
 	if err != nil {
 		return "", err
@@ -221,10 +259,23 @@ func TestVerifC13Sighup(t *testing.T) {
 	if err := os.WriteFile(keyPath, bytes.Repeat([]byte{7}, 64), 0o600); err != nil {
 		t.Fatal(err)
 	}
-	ccPath, err := filepath.Abs("testdata/ClientConf")
+	ccBytes, err := os.ReadFile("testdata/ClientConf")
 	if err != nil {
 		t.Fatal(err)
 	}
+	h.ccBase = &pb.ClientConf{}
+	if err := proto.Unmarshal(ccBytes, h.ccBase); err != nil {
+		t.Fatal(err)
+	}
+	h.gens = []uint32{h.ccBase.GetGeneration()}
+	if h.gens[0] != 1153 {
+		t.Fatalf("testdata/ClientConf has generation %d, the driver assumes 1153", h.gens[0])
+	}
+	h.ccPath = filepath.Join(h.dir, "ClientConf")
+	if err := os.WriteFile(h.ccPath, ccBytes, 0o600); err != nil {
+		t.Fatal(err)
+	}
+	ccPath := h.ccPath
 	h.apiPort = c13FreePort(t)
 	zmqPort := c13FreePort(t)
 	confPath := filepath.Join(h.dir, "reg_config.toml")
@@ -247,7 +298,7 @@ func TestVerifC13Sighup(t *testing.T) {
 		rec.Inconclusive("the registrar never opened its subnet file at start-up", nil)
 		return
 	}
-	w.WriteString(first.toml())
+	w.WriteString(h.content(first))
 	w.Close()
 	up := false
 	for deadline := time.Now().Add(60 * time.Second); time.Now().Before(deadline); time.Sleep(20 * time.Millisecond) {
@@ -304,7 +355,7 @@ func TestVerifC13Sighup(t *testing.T) {
 		for deadline := time.Now().Add(3 * time.Minute); time.Now().Before(deadline); {
 			if w := h.tryServe(); w != nil {
 				s := h.latest()
-				w.WriteString(s.toml())
+				w.WriteString(h.content(s))
 				w.Close()
 				began++
 				lastServed = s.name
@@ -328,14 +379,25 @@ func TestVerifC13Sighup(t *testing.T) {
 		return began, lastServed, false
 	}
 
-	type scen struct{ before, during int }
-	base := []scen{{1, 0}, {1, 1}, {1, 2}, {1, 3}, {2, 1}, {3, 2}, {2, 0}, {1, 1}}
+	type scen struct {
+		before, during int
+		rollout        bool // the reload also rolls out a new ClientConf generation
+	}
+	base := []scen{{1, 0, false}, {1, 1, false}, {1, 0, true}, {1, 2, false}, {1, 3, false}, {2, 1, true}, {2, 1, false}, {3, 2, false}, {2, 0, false}, {1, 1, true}}
 	reps := kit.Tier(2, 25)
 	lost := 0
 	for r := 0; r < reps && lost < 2; r++ {
 		for _, sc := range base {
-			label := fmt.Sprintf("sighups-before-reload=%d sighups-during-reload=%d", sc.before, sc.during)
+			label := fmt.Sprintf("sighups-before-reload=%d sighups-during-reload=%d rollout=%v", sc.before, sc.during, sc.rollout)
 			rec.CaseCheap(label)
+			h.mu.Lock()
+			oldGen := h.gens[len(h.gens)-1]
+			h.mu.Unlock()
+			if sc.rollout {
+				if _, err := h.rollOut(); err != nil {
+					t.Fatal(err)
+				}
+			}
 			x := h.publish()
 			hup(sc.before)
 			w1 := h.waitServe(60 * time.Second)
@@ -352,7 +414,23 @@ func TestVerifC13Sighup(t *testing.T) {
 				time.Sleep(100 * time.Millisecond) // let the signals reach the registrar's channel (sensitivity only, not soundness)
 				_ = y
 			}
-			w1.WriteString(served.toml()) // reload #1 ends with what it had begun to read
+			if sc.rollout {
+				// while the reload is held: clients of the base generation and of the generation that was current until now
+				// must keep being answered (whatever order the registrar applies the parts of a reload in)
+				for i := 0; i < 4; i++ {
+					for _, g := range []uint32{1153, oldGen} {
+						got, err := h.registerGen(g)
+						rec.Count("requests_during_a_held_rollout", 1)
+						if err != nil {
+							rec.Violation("request-failed-during-generation-rollout", "while a reload that rolls out a new ClientConf generation was running, a client of an older generation was refused",
+								map[string]interface{}{"scenario": label, "client_generation": g, "err": err.Error()})
+						} else if strings.HasPrefix(got, "mixed:") {
+							rec.Violation("mixed-subnet-sets:api", "an answer of the running registrar does not lie wholly in one published subnet set", map[string]interface{}{"answer": got})
+						}
+					}
+				}
+			}
+			w1.WriteString(h.content(served)) // reload #1 ends with what it had begun to read
 			w1.Close()
 			began, lastServed, ok := quiesce()
 			if !ok {
@@ -368,7 +446,7 @@ func TestVerifC13Sighup(t *testing.T) {
 				// re-confirm before reporting: nothing may begin in 3 more seconds either
 				time.Sleep(3 * time.Second)
 				if w := h.tryServe(); w != nil {
-					w.WriteString(want.toml())
+					w.WriteString(h.content(want))
 					w.Close()
 					rec.Inconclusive("a reload began only after the signal path had looked idle for a second", map[string]interface{}{"scenario": label})
 					quiesce()
@@ -381,7 +459,7 @@ func TestVerifC13Sighup(t *testing.T) {
 				// bring the registrar back in step for the next scenario
 				hup(1)
 				if w := h.waitServe(60 * time.Second); w != nil {
-					w.WriteString(want.toml())
+					w.WriteString(h.content(want))
 					w.Close()
 				}
 				quiesce()
@@ -392,8 +470,11 @@ func TestVerifC13Sighup(t *testing.T) {
 				continue
 			}
 			// quiet now: fresh requests must be answered from the set published last
+			h.mu.Lock()
+			newest := h.gens[len(h.gens)-1]
+			h.mu.Unlock()
 			for i := 0; i < 3; i++ {
-				got, err := h.register()
+				got, err := h.registerGen([]uint32{1153, oldGen, newest}[i])
 				if err != nil {
 					rec.Violation("request-failed-after-sighup-reloads", "a request failed after the signalled reloads completed", map[string]interface{}{"scenario": label, "err": err.Error()})
 				} else if got != want.name {
